@@ -36,8 +36,8 @@ for l in lines:
         ev = '/verif/evidence/%s.json' % cur
         if os.path.exists(ev):
             ex = json.load(open(ev)).get('coverage', {}).get('explanation', '')
-            m3 = re.search(r'Third round: (.*?) Not decided:', ex)
+            m3 = re.search(r'(Third round: .*?) Not decided:', ex)
             if m3:
                 out.append('')
-                out.append('*Third round:* ' + m3.group(1))
+                out.append('*Third round:* ' + m3.group(1)[len('Third round: '):])
 open('/verif/DESIGN.md', 'w').write('\n'.join(out))
